@@ -29,7 +29,15 @@ func (Prop) Rule() string {
 		"C (neighbourhood accept set, all block sizes; quick tier: 52 block sizes): every padded form of 6 message lengths {0,1,bs-1,bs,bs+1,2bs} with every single-byte substitution from " +
 		"{00,01,08,80,ff,bs,b^01,b^80,b+1,b-1} at every position, block appended/duplicated/removed, one byte appended/removed: same iff oracle. " +
 		"D: method 3 with a bit length that does not fit the block (bs 1,2): only 'no panic' is required. " +
-		"distinct_nontrivial counts (scheme, bs, residue class, block count, capacity) classes of A plus (scheme, bs, length, accepted?) classes of B and (scheme, bs, deviation kind, accepted?) of C."
+		"distinct_nontrivial counts (scheme, bs, residue class, block count, capacity) classes of A plus (scheme, bs, length, accepted?) classes of B and (scheme, bs, deviation kind, accepted?) of C. " +
+		"W (widening by checklist, all exhaustive over the stated alphabets; keys are prefixed with the family): " +
+		"W/cap: bs 1..24,31..33 (thorough: 1..40,48,63..65,127..129,255) x lengths 0..2bs+1 x EVERY spare capacity 0..2bs+2 x 3 (thorough 6) dirt patterns {ee^i,ff,80,00,01,bs}, plus nil / empty sources of 3 capacities: documented form, and the caller's whole array is compared afterwards - only [len, len(result)) may change and only when the result fits the capacity (method 3: [0, len(result))), nothing behind the result, nothing at all when the result had to be allocated. " +
+		"W/own: all bs x lengths 0..2bs+1: Pad on two objects alternately with every result overwritten over its full capacity (results must stay overwritten: no shared memory; the third call must answer as the first); Unpad with 3 capacities x 3 kinds of bytes behind the input leaves the whole array unchanged, answers the same twice, also after its earlier result was overwritten; a valid padding cut by one byte with the capacity unchanged; altered padding (up to 5 single-byte alterations the reference rejects) then the repaired buffer on the same object, input unchanged by the failing call; chains pad,pad,unpad,unpad,pad,unpad on one buffer with no / exact / ample spare capacity (in place where it fits, method 3 from a window at an offset). " +
+		"W/hist: all ordered pairs (a,b) of 4 schemes x bs {1,2,8,16,17} x lengths {0,1,bs-1,bs,bs+1,2bs} x {Pad exact/fit/ample capacity, Unpad valid, Unpad altered} on long-lived objects, every operation with its own message content: a, b, a again - a's result must be unchanged after b and must not overlap b's, every answer as the reference says. " +
+		"W/long: 52 bs (thorough: all) x lengths {5,31,32,33,255,256,257,8191,8192,8193,65535,65536,65537} (bs<=4: also every length 0..40; thorough: 2^21-1,2^21,2^21+1 for 11 bs) x 3 capacities (method 2: x endings 00/80): form, array, Unpad; lengths whose bit count does not fit bs bytes: only 'no panic'; for 18 bs every byte of the method-3 length block and both ends of the zero tail x 12 substitutions: accepted iff reference. " +
+		"W/trailer-msg: 52 bs (thorough: all) x the k-byte trailer of each trailing scheme for EVERY k=1..bs as the end of a message x 9 lengths {k,k+1,bs-1,bs,bs+1,bs+k,2bs-1,2bs,2bs+1}, and every value 0..255 of the last message byte x 5 lengths: form and round trip. " +
+		"W/trailer-unpad: trailing schemes, 52 bs (thorough: all) x EVERY trailer length k=1..bs x every byte of the trailer, the byte before it and the first byte of the last block x 8 substitutions; method 3, bs 1..40,64,65 (thorough: 52 bs) x EVERY length 0..2bs+1 x every byte of the length block, of the zero tail and the last message byte x 8 substitutions: accepted iff reference. " +
+		"W/ctor: 4 constructors x 24 block sizes outside 1..255 (0, 256, 257, ... the boundaries of 8/16/31/32/63/64-bit integers and values that truncate to 1, 16, 255, 0): the constructor panics (documented), or - since it then 'accepts' the size - Pad returns whole blocks of that size beyond the message, Unpad inverts it and nothing panics (judged up to 65536 bytes; a non-positive BlockSize() must still not make Pad/Unpad panic; larger accepted sizes are recorded as unjudged)."
 }
 func (Prop) Assumptions() []string {
 	return []string{
@@ -38,6 +46,10 @@ func (Prop) Assumptions() []string {
 		"method 3 Pad may reuse spare capacity of src (it has to move the data), so 'source untouched' is only required of it when src has no room; the three trailing schemes must never write below len(src)",
 		"message contents beyond the stated endings are one fixed non-zero counting pattern; the property's 'random contents' are not sampled",
 		"the padding package has no dispatch tiers (pure Go, no build tags), so only c-default is run",
+		"append semantics (the property's quantifier) are read as those of Go's append: bytes of the caller's array behind the returned slice are never written, and an array too small for the result is not written at all; inside [len(src), len(result)) of a large enough array anything may be written (method 3: inside [0, len(result)))",
+		"Unpad may return a window of its input (it does); overwriting that window is the caller's business, so input integrity is judged before the harness writes into a result, and the input is restored before the next call",
+		"a block size outside 1..255 that a constructor accepts is judged by the property itself (whole blocks of that size, exact inverse, no panic) without the reference, which is defined for 1..255 only; that the constructors panic there is documented for two of them and is not demanded of the others (methods 2 and 3 are well defined for larger blocks)",
+		"messages of the widening families are fixed non-zero counting patterns (one per operation in W/hist) plus the constructed endings; nothing is sampled",
 	}
 }
 
@@ -221,27 +233,45 @@ func withCap(m []byte, bs, mode int) []byte {
 // checkUnpad compares the library's Unpad on s with the reference relation. kind is a short label of how s was
 // produced (for the detail text only). Returns "accept"/"reject"/"panic".
 func checkUnpad(t *engine.T, sc scheme, bs int, p padding.Padding, s []byte, kind string, panicSeen *bool) string {
+	return checkUnpadK(t, "", sc, bs, p, s, kind, panicSeen)
+}
+
+// checkUnpadK is checkUnpad with a family prefix in front of every finding key (the widening families use it so
+// that a report names the family that produced the input; the empty prefix gives the original keys).
+func checkUnpadK(t *engine.T, pre string, sc scheme, bs int, p padding.Padding, s []byte, kind string, panicSeen *bool) string {
 	in := exactCopy(s) // exact capacity copy: Unpad must not rely on bytes beyond len
 	r := safeUnpad(p, in)
 	if r.panicked {
 		if !*panicSeen { // report (and capture the frame) once per case; later panics of the same case are only counted
 			*panicSeen = true
-			reportPanic(t, sc.id, bs, "unpad", fmt.Sprintf("Unpad(%s) [%s]", engine.Hex(s), kind), r.pval, func() { p.Unpad(in) })
+			if pre != "" {
+				if !t.Guard(pre+sc.id.String()+"/unpad", func() { p.Unpad(in) }) {
+					t.Fail(pre+sc.id.String()+"/unpad/panic-not-repeatable", "Unpad(%s) [%s] panicked with %v, the repeated call did not", engine.Hex(s), kind, r.pval)
+				}
+			} else {
+				reportPanic(t, sc.id, bs, "unpad", fmt.Sprintf("Unpad(%s) [%s]", engine.Hex(s), kind), r.pval, func() { p.Unpad(in) })
+			}
 		}
 		t.Extra("panics_observed", 1)
 		return "panic"
 	}
 	mr, okr := padref.Unpad(sc.id, bs, s)
 	name := sc.id.String()
+	gk := func(sub string) string { // generic key; the family-prefixed form does not need the historic m3 grouping
+		if pre != "" {
+			return name + "/" + sub
+		}
+		return generic(sc.id, bs, sub)
+	}
 	if len(s) == 0 || len(s)%bs != 0 {
 		if r.err == nil {
-			t.Fail(name+"/unpad-accepts-non-multiple", "%s bs=%d Unpad(%s) [%s] of %d bytes returned (%s, nil); a string that is not a positive multiple of the block size is nobody's padding", name, bs, engine.Hex(s), kind, len(s), engine.Hex(r.out))
+			t.Fail(pre+name+"/unpad-accepts-non-multiple", "%s bs=%d Unpad(%s) [%s] of %d bytes returned (%s, nil); a string that is not a positive multiple of the block size is nobody's padding", name, bs, engine.Hex(s), kind, len(s), engine.Hex(r.out))
 		}
 		return "reject"
 	}
 	switch {
 	case r.err == nil && !okr:
-		key := generic(sc.id, bs, "unpad-accepts-invalid")
+		key := gk("unpad-accepts-invalid")
 		why := ""
 		switch sc.id {
 		case padref.M2:
@@ -266,15 +296,15 @@ func checkUnpad(t *engine.T, sc scheme, bs int, p padding.Padding, s []byte, kin
 			}
 		}
 		back, _ := padref.Pad(sc.id, bs, r.out)
-		t.Fail(key, "%s bs=%d Unpad(%s) [%s] returned (%s, nil)%s, but Pad of that message is %s — the input is not the padding of any message and must be rejected", name, bs, engine.Hex(s), kind, engine.Hex(r.out), why, engine.Hex(back))
+		t.Fail(pre+key, "%s bs=%d Unpad(%s) [%s] returned (%s, nil)%s, but Pad of that message is %s — the input is not the padding of any message and must be rejected", name, bs, engine.Hex(s), kind, engine.Hex(r.out), why, engine.Hex(back))
 		return "accept"
 	case r.err == nil && okr:
 		if !bytes.Equal(r.out, mr) {
-			t.Fail(generic(sc.id, bs, "unpad-wrong-message"), "%s bs=%d Unpad(%s) [%s] = %s, want %s", name, bs, engine.Hex(s), kind, engine.Hex(r.out), engine.Hex(mr))
+			t.Fail(pre+gk("unpad-wrong-message"), "%s bs=%d Unpad(%s) [%s] = %s, want %s", name, bs, engine.Hex(s), kind, engine.Hex(r.out), engine.Hex(mr))
 		}
 		return "accept"
 	case r.err != nil && okr:
-		t.Fail(generic(sc.id, bs, "unpad-rejects-valid"), "%s bs=%d Unpad(%s) [%s] failed with %q, but the input is exactly the documented padding of %s", name, bs, engine.Hex(s), kind, r.err, engine.Hex(mr))
+		t.Fail(pre+gk("unpad-rejects-valid"), "%s bs=%d Unpad(%s) [%s] failed with %q, but the input is exactly the documented padding of %s", name, bs, engine.Hex(s), kind, r.err, engine.Hex(mr))
 		return "reject"
 	}
 	return "reject"
@@ -629,4 +659,6 @@ func (Prop) Run(c *engine.Ctx) {
 			}
 		}
 	})
+	// W: widening families (widen.go, widen_values.go)
+	runWiden(c)
 }
